@@ -23,6 +23,10 @@ def handleLine (st : DState) (line : String) : DState × String :=
       match handleRegDecode fs with
       | some a => (st, id ++ " " ++ a)
       | none => (st, id ++ " bad-case")
+    else if cmd == "ana" then
+      match handleAna fs with
+      | some a => (st, id ++ " " ++ a)
+      | none => (st, id ++ " bad-case")
     else if cmd == "init" then
       match lookup fs "arch", (lookup fs "n").bind parseHex, (lookup fs "c0").bind parseHex with
       | some arch, some n, some c0 =>
